@@ -6,11 +6,13 @@ def plan(tier):
     conds = [
         Cond("vf.h.h_clock", "h_tick", case=0, timeout=200, label="H15-tick", weight=2),
         Cond("vf.h.h_clock", "h_run", case=0, timeout=200, label="H15-run", weight=1),
-        Cond("vf.h.h_clock", "h_split", case=5, timeout=900, label="H15-split[1+1]", weight=50),
+        Cond("vf.h.h_clock", "h_split", case=5, timeout=1200, label="H15-split[1+1]", weight=50),
+        Cond("vf.h.h_clock", "h_split", case=21, timeout=1200, label="H15-split[1+1,dispatcher-first]", weight=50),
     ]
     if tier == "thorough":
         for a, b in ((0, 1), (0, 2), (1, 0), (2, 0), (1, 2), (2, 1), (0, 3), (3, 0)):
-            conds.append(Cond("vf.h.h_clock", "h_split", case=a * 4 + b, timeout=2400, label=f"H15-split[{a}+{b}]", weight=60 * (a + b)))
+            conds.append(Cond("vf.h.h_clock", "h_split", case=a * 4 + b, timeout=3000, label=f"H15-split[{a}+{b}]", weight=60 * (a + b)))
+            conds.append(Cond("vf.h.h_clock", "h_split", case=16 + a * 4 + b, timeout=3000, label=f"H15-split[{a}+{b},dispatcher-first]", weight=60 * (a + b)))
     return {
         "conds": conds,
         "min_classes": 8,
@@ -19,7 +21,7 @@ def plan(tier):
                        "and the same per-step event lists as crank(a+b) and as LocalSimulationRunner.run, on a payload carrying the real request reader (2 rows, symbolic times), "
                        "CancelRequests and StepSimulation with the built-in ChargingFleetManager + Dispatcher.",
         "entry_points": ["simulation_state_ops.tick", "Update.apply_update", "LocalSimulationRunner.run", "LocalSimulationRunner.step", "hive_cosim.crank", "StepSimulation.update"],
-        "bounds": ["tick: clock < 2e9, dt 1..3600", "run: (end-start) <= 4*dt, dt <= 20", "split: a+b <= 2 (quick) / <= 3 (thorough); dt 30..120 s; 2 request rows; 1 vehicle, energy 5..50 kWh"],
+        "bounds": ["tick: clock < 2e9, dt 1..3600", "run: (end-start) <= 4*dt, dt <= 20", "split: a+b <= 2 (quick) / <= 3 (thorough); dt 30..120 s; 2 request rows; 1 vehicle, energy 1..50 kWh; generator order both ways; a stateful third generator; generators re-injected through runner_payload_ops between the two calls"],
         "outside": ["handlers flushing to files, tqdm, lazy readers, scenarios loaded from disk (I/O)"],
         "stubs": C.STUBS_COMMON + C.STUBS_UPD + ["tqdm replaced by the identity"],
         "assumptions": [],
